@@ -1,7 +1,44 @@
 /-
-  C01 — see AL.Spec.X86 (reference decoder) and AL.Spec.X86Families (quantifier domain).
+  C01 — integer instructions on registers encode exactly the instruction written.
+
+  Statement (AL.Spec.X86*): for every instance d of the family — every integer entry of the reference
+  opcode table whose operands are registers, over ALL register tuples x86-64 can encode (every width,
+  r8–r15, ah/ch/dh/bh without REX), every synonym mnemonic, the no-operand instructions —
+      decode (assemble (render d)) = d,  one instruction, length = number of bytes emitted.
+   * `Sweep.c01_sweep`        — the whole family (≈ 51 000 instances x 2 option bytes) on the model,
+                                decided by evaluation (native_decide, see AL/Properties/Sweep/C01.lean);
+                                option bytes beyond {14, 0}: C11 `other_lines_identical` (these lines have
+                                neither immediate nor memory operand);
+   * `nop_table_decodes`      — kernel-checked: each entry n of the regenerated NOP table (nop, nop2 … nop11,
+                                also the padding of C13) is ONE instruction that the decoder reads as a nop of
+                                exactly n bytes;
+   * `no_operand_lines`       — kernel-checked, text level: the no-operand instructions.
 -/
-import AL.Spec.X86Families
-import AL.Impl.Line
+import AL.Properties.Sweep.C01
+import AL.Impl.Parser
 namespace AL.Properties.C01
+open AL AL.Impl AL.Gen AL.Spec.X86
+
+def isNopOfLen (bs : List Nat) (n : Nat) : Bool :=
+  match decode bs with
+  | some d => d.mn == "nop" && d.len == n && bs.length == n
+  | none => false
+
+/-- **the NOP table**: entry n is one nop instruction of n bytes (n = 1..11) -/
+theorem nop_table_decodes : nopTable.length = 11 ∧
+    ((List.range 11).all fun i => isNopOfLen (nopTable.getD i []) (i + 1)) = true := by decide +kernel
+
+def lineDecodes (opt : Nat) (text : String) (mn : String) : Bool :=
+  match (assembleLine opt (toStr text)).1 with
+  | .ok (.code bs) => (match decode bs with
+      | some d => d.mn == mn && d.ops.isEmpty && d.len == bs.length
+      | none => false)
+  | _ => false
+
+set_option maxRecDepth 100000 in
+/-- **no-operand instructions**, whole per-line pipeline, kernel evaluation -/
+theorem no_operand_lines :
+    (["clc", "cpuid", "lfence", "mfence", "sfence", "rdpmc", "rdtsc", "rdtscp", "ret", "xend", "nop"].all
+      fun t => lineDecodes 14 t t) = true := by decide +kernel
+
 end AL.Properties.C01
